@@ -151,6 +151,8 @@ class Evaluator:
         self.stop = set(stop_blocks)
         self.ptr = ptr
         self.pure_calls = tuple(pure_calls)
+        self.arrlen = {}
+        self.hoisted = True
         self.max_paths = max_paths
         self.rows = []
         self.frame_counter = 0
@@ -282,6 +284,11 @@ class Evaluator:
                 elif k == "cidx":
                     if base[0] == "array" and not pt[3] and pt[2] < len(base[1]):
                         return base[1][pt[2]]
+                    if base[0] in ("call", "pure", "field", "param", "unknown") and not pt[3]:
+                        # pattern destructuring `let [a, b] = f(..)` reads the same element as `f(..)[0]`
+                        return ("field", base, "[%d]" % pt[2])
+                    if base[0] == "constarr" and not pt[3] and pt[2] < len(base[2]):
+                        return ("int", base[2][pt[2]])
         r = root_of(pt)
         if r[0] == "local":
             # reading an unwritten local: argument or uninitialised
@@ -474,9 +481,14 @@ class Evaluator:
             ta = self.operand(st, frame, fn, a)
             ty = dest_ty or self.operand_ty(fn, a)
             if op == "PtrMetadata":
+                # a reference / pointer to an array of statically known size (before unsizing)
+                import re as _re
+                m = _re.search(r"\[[^\[\]]*; (\d+)(?:_usize)?\]$", (self.operand_ty(fn, a) or "").strip())
+                if m:
+                    return ("int", int(m.group(1)))
                 if ta[0] == "ref":
-                    return ("len", ("load", ta[1], 0)) if False else ("len", self._place_val(st, ta[1]))
-                return ("len", ta)
+                    return self._mk_len(self._place_val(st, ta[1]))
+                return self._mk_len(ta)
             if is_const(ta):
                 v = const_val(ta)
                 if op == "Not":
@@ -493,6 +505,11 @@ class Evaluator:
                     return ("int", 1 - d)
                 if ta[0] == "bin" and ta[1] in CMP_NEG:
                     return ("bin", CMP_NEG[ta[1]], ta[2], ta[3], "bool")
+            if op == "Not" and ty and ty != "bool" and ta[0] == "bin" and ta[1] == "Shl" and is_const(ta[2]):
+                # !(MAX << n)  ==  (1 << n) - 1
+                b = ty_bits(ty, self.ptr)
+                if b and const_val(ta[2]) == (1 << b) - 1:
+                    return self.mk_bin(st, "Sub", self.mk_bin(st, "Shl", ("int", 1), ta[3], ty), ("int", 1), ty)
             return ("un", op, ta, ty)
         if "cast" in rv:
             kind, a, ty = rv["cast"]
@@ -515,6 +532,12 @@ class Evaluator:
                     ck = "widen"
                 return ("cast", ta, ty, ck)
             if kind in ("PtrToPtr", "Transmute") or kind.startswith("PointerCoercion"):
+                if kind.startswith("PointerCoercion") and sty:
+                    # unsizing a reference to an array of statically known length: remember the length of the resulting slice
+                    import re as _re
+                    m = _re.search(r"\[[^\[\]]*; (\d+)(?:_usize)?\]$", sty.strip())
+                    if m and isinstance(ta, tuple):
+                        self.arrlen[ta] = int(m.group(1))
                 return ta if kind != "Transmute" else ("cast", ta, ty, "transmute")
             return ("cast", ta, ty, kind)
         if "agg" in rv:
@@ -607,6 +630,25 @@ class Evaluator:
         # constants to the right for commutative operations
         if op in ("Add", "Mul", "BitAnd", "BitOr", "BitXor", "Eq", "Ne") and is_const(a) and not is_const(b):
             a, b = b, a
+        # equivalent spellings are mapped to one form, so that rules do not depend on which one the source uses
+        if op in ("Eq", "Ne") and is_const(b) and a[0] == "bin" and a[1] == "BitXor" and len(a) > 4 and a[4]:
+            xb = ty_bits(a[4], self.ptr)
+            if xb and a[4][0] == "u" and const_val(b) == (1 << xb) - 1:
+                # (x ^ y) == !0   <=>   x == !y
+                return self.mk_bin(st, op, a[2], ("un", "Not", a[3], a[4]), ty)
+        bits = ty_bits(ty, self.ptr) if ty and ty != "bool" else None
+        if bits and ty[0] == "u" and is_const(b):
+            cb = const_val(b)
+            if op == "Rem" and cb > 0 and cb & (cb - 1) == 0:
+                # x % 2^k  ==  x & (2^k - 1)   (unsigned)
+                return self.mk_bin(st, "BitAnd", a, ("int", cb - 1), ty)
+            if op == "Mul" and cb > 1 and cb & (cb - 1) == 0 and a[0] == "bin" and a[1] == "Shr" and is_const(a[3]) and \
+                    (1 << const_val(a[3])) == cb:
+                # (x >> k) * 2^k  ==  x & !(2^k - 1)
+                return self.mk_bin(st, "BitAnd", a[2], ("int", ((1 << bits) - 1) & ~(cb - 1)), ty)
+            if op == "Shl" and cb >= 1 and a[0] == "bin" and a[1] == "Shr" and is_const(a[3]) and const_val(a[3]) == cb:
+                # (x >> k) << k  ==  x & !(2^k - 1)
+                return self.mk_bin(st, "BitAnd", a[2], ("int", ((1 << bits) - 1) & ~((1 << cb) - 1)), ty)
         # interval evaluation of the result when both operand ranges are known (bit tests)
         t = ("bin", op, a, b, ty)
         if op == "BitAnd" and is_const(b) and a[0] == "bin" and a[1] == "BitOr" and is_const(a[3]):
@@ -629,11 +671,68 @@ class Evaluator:
         for i in range(1, fn.argc + 1):
             v = args[i - 1] if args and i - 1 < len(args) and args[i - 1] is not None else ("param", i)
             st.store[("local", frame, i)] = v
+        if init_store is None and start_bb != 0 and self.hoisted:
+            init_store = self._hoisted_values(fn, start_bb)
+            self.rows = []
         if init_store:
             st.store.update(init_store)
         st.frames.append((fn, frame, None, None))
         self._walk(st, fn, frame, start_bb)
         return self.rows
+
+    _hoist_cache = {}
+
+    def _hoisted_values(self, fn, head):
+        """When an evaluation starts at a loop head, the locals that are assigned nowhere at or after the head keep the value they
+        got before the loop.  Those values are computed by evaluating the function from its entry up to the head (same settings) and
+        are kept when they are identical on every path reaching the head and mention only parameters, constants and pure operations
+        on them — so `let k = f(arg); loop { use(k) }` yields the same terms as `loop { use(f(arg)) }`."""
+        key = (id(self.crates[0]) if hasattr(self, "crates") else 0, fn.id, head, self.inline if hasattr(self, "inline") else ())
+        try:
+            hash(key)
+        except TypeError:
+            key = (fn.id, head)
+        if key in Evaluator._hoist_cache:
+            return Evaluator._hoist_cache[key]
+        out = {}
+        try:
+            reach = fn.reachable(head)
+            assigned = set()
+            for b in reach:
+                blk = fn.blocks[b]
+                for s_ in blk["s"]:
+                    if "a" in s_:
+                        assigned.add(s_["a"][0]["l"])
+                    if "a" in s_ and "ref" in s_["a"][1] and s_["a"][1].get("mut"):
+                        assigned.add(s_["a"][1]["ref"]["l"])          # mutably borrowed: may change behind the borrow
+                    if "a" in s_ and "ptr" in s_["a"][1]:
+                        assigned.add(s_["a"][1]["ptr"]["l"])
+                t = blk["t"]
+                if "call" in t and t.get("dest") is not None:
+                    assigned.add(t["dest"]["l"])
+            saved = (self.stop, self.rows, self.max_paths, self.hoisted)
+            self.stop = {head}          # other loop heads on the way are passed through (first arrival) like any block
+            self.hoisted = False
+            self.max_paths = min(self.max_paths, 4000)
+            try:
+                pre = [x for x in self.run(fn) if x.outcome[0] == "stop" and x.outcome[1] == head]
+            finally:
+                self.stop, self.rows, self.max_paths, self.hoisted = saved
+            if pre:
+                for k, v in pre[0].store.items():
+                    if not (isinstance(k, tuple) and len(k) == 3 and k[0] == "local" and k[1] == 0):
+                        continue
+                    if k[2] in assigned or k[2] <= fn.argc or not isinstance(v, tuple):
+                        continue
+                    if all(x.store.get(k) == v for x in pre) and \
+                            not term_contains(v, lambda y: y and y[0] in ("unknown", "call") or (y and y[0] == "load" and y[2] != 0)):
+                        out[k] = v
+        except PathLimit:
+            out = {}
+        except Exception:
+            out = {}
+        Evaluator._hoist_cache[key] = out
+        return out
 
     def _finish(self, st, outcome, ret=None):
         if len(self.rows) >= self.max_paths:
@@ -809,6 +908,46 @@ class Evaluator:
         m = self.model_call(st, callee, c, args)
         if m is not None:
             return finish_value(st, m)
+        # ---- core::mem::replace(&mut place, v): returns the old value and stores v (so `let old = replace(&mut x, v)` is `let old = x; x = v`)
+        if callee in ("core::mem::replace", "std::mem::replace") and len(args) == 2 and args[0][0] == "ref":
+            pl_ = args[0][1]
+            old_ = self.read(st, pl_)
+            self.write(st, pl_, args[1])
+            if root_of(pl_)[0] != "local":
+                st.effects.append(("store", pl_, args[1], sp))
+            return finish_value(st, old_)
+        # ---- `table.get(i)` on an array of statically known length: Some(&table[i]) iff i < len (two continuations)
+        if callee == "core::slice::<impl [T]>::get" and len(args) == 2 and args[0][0] == "ref" and \
+                args[1][0] not in ("agg", "tuple", "call") and not (args[1][0] == "ref"):
+            base_pl = args[0][1]
+            arrv = args[0][1][2] if base_pl[0] == "promoted" else self.read(st, base_pl)
+            n = self.arrlen.get(args[0])
+            if n is None and arrv and arrv[0] == "constarr":
+                n = len(arrv[2])
+            if n is None and arrv and arrv[0] == "array":
+                n = len(arrv[1])
+            if n is not None:
+                cond = self.mk_bin(st, "Lt", args[1], ("int", n), "bool")
+                conts = []
+                for val in (0, 1):
+                    s2 = st.copy() if val == 0 else st
+                    if is_const(cond):
+                        if const_val(cond) != val:
+                            continue
+                    else:
+                        if not s2.facts.constrain(cond, ISet.of(val)):
+                            continue
+                        s2.atoms.append((cond, ISet.of(val)))
+                    if val:
+                        if arrv and arrv[0] == "constarr":
+                            # element value: the table entry (same term as `TABLE[i]`)
+                            elem_pl = ("idx", base_pl, args[1])
+                            s2.store[elem_pl] = ("pure", "index", (arrv, args[1]))
+                        value = ("agg", "core::option::Option", "Some", ("0",), (("ref", ("idx", base_pl, args[1]), False),))
+                    else:
+                        value = ("agg", "core::option::Option", "None", (), ())
+                    conts += finish_value(s2, value)
+                return conts
         # ---- closure invocation with a known closure value
         if callee.endswith(("FnOnce::call_once", "FnMut::call_mut", "Fn::call")) and args:
             clo = args[0]
@@ -866,7 +1005,106 @@ class Evaluator:
             tr = ty_range(dty)
             if not tr.is_all():
                 st.facts.constrain(res, tr)
+        if callee.endswith("::next") and "ops::Range<" in callee and t.get("args"):
+            # `for i in a..b` with constant bounds: the value handed out by Range::next lies in [a, b)
+            rb = self._const_range_of(fn, t["args"][0])
+            if rb is not None and rb[0] < rb[1]:
+                payload = ("field", ("field", res, "as Some"), "0")
+                st.facts.constrain(payload, ISet.of(*range(rb[0], rb[1])) if rb[1] - rb[0] <= 64 else ISet._norm([(rb[0], rb[1] - 1)]))
         return finish_value(st, res)
+
+    def _const_range_of(self, fn, operand):
+        """(a, b) if `operand` is `&mut R` (possibly reborrowed / moved) where local R is initialised once by
+        `into_iter(Range { start: const a, end: const b })` — looked up in the MIR definitions; Range::next changes only `start`,
+        so the bounds hold on every iteration"""
+        def single_def(l):
+            ds = fn.defs().get(l, [])
+            return ds[0] if len(ds) == 1 else None
+
+        def rvalue_of(l):
+            d = single_def(l)
+            if d is None:
+                return None, None
+            if d[1] == "t":
+                return "call", fn.blocks[d[0]]["t"]
+            return "rv", fn.blocks[d[0]]["s"][d[1]]["a"][1]
+
+        def plain_local(o):
+            pl = (o.get("c") or o.get("m")) if isinstance(o, dict) else None
+            return pl["l"] if pl is not None and not pl["p"] else None
+        l = plain_local(operand)
+        # 1. down to the iterator local: follow moves and (re)borrows
+        for _ in range(8):
+            if l is None:
+                return None
+            k, v = rvalue_of(l)
+            if k == "rv" and "use" in v:
+                l = plain_local(v["use"])
+            elif k == "rv" and "ref" in v:
+                pr = v["ref"]
+                if not pr["p"]:
+                    l = pr["l"]
+                    k2, v2 = rvalue_of(l)
+                    if k2 == "call" or (k2 == "rv" and "agg" in v2) or (k2 == "rv" and "use" in v2):
+                        pass
+                    continue
+                if len(pr["p"]) == 1 and pr["p"][0] in ("deref", {"deref": True}) or str(pr["p"]) in ("['deref']",):
+                    l = pr["l"]
+                else:
+                    return None
+            else:
+                break
+        # 2. the iterator local: = into_iter(x) (through moves)
+        for _ in range(6):
+            k, v = rvalue_of(l)
+            if k == "call":
+                if not callee_name(v["call"]).endswith("into_iter") or not v.get("args"):
+                    return None
+                l = plain_local(v["args"][0])
+                break
+            if k == "rv" and "use" in v:
+                l = plain_local(v["use"])
+                if l is None:
+                    return None
+            else:
+                return None
+        else:
+            return None
+        # 3. the range aggregate
+        for _ in range(6):
+            if l is None:
+                return None
+            k, v = rvalue_of(l)
+            if k == "rv" and "use" in v:
+                l = plain_local(v["use"])
+                continue
+            if k == "rv" and "agg" in v and str(v["agg"].get("def", "")).split("::")[-1] == "Range":
+                ops = v["agg"]["ops"]
+
+                def cval(o, depth=0):
+                    if "k" in o and "int" in o["k"]:
+                        return int(o["k"]["int"])
+                    ll = plain_local(o)
+                    if ll is None or depth > 4:
+                        return None
+                    kk, vv = rvalue_of(ll)
+                    if kk == "rv" and "use" in vv:
+                        return cval(vv["use"], depth + 1)
+                    if kk == "call" and callee_name(vv["call"]).endswith("slice::<impl [T]>::len") and vv.get("args"):
+                        # `array.len()`: the slice reference comes from unsizing `&[T; N]`
+                        al = plain_local(vv["args"][0])
+                        k3, v3 = rvalue_of(al) if al is not None else (None, None)
+                        if k3 == "rv" and "cast" in v3:
+                            src = plain_local(v3["cast"][1])
+                            import re as _re
+                            m = _re.search(r"\[[^\[\]]*; (\d+)(?:_usize)?\]$", (fn.locals[src]["ty"] if src is not None else "").strip())
+                            if m:
+                                return int(m.group(1))
+                    return None
+                a, b = cval(ops[0]), cval(ops[1])
+                return (a, b) if a is not None and b is not None else None
+            return None
+        return None
 
     def _havoc_call(self, st, cid, args, cf_for_adt=None):
         summ = self.effects.lookup(cid) if (self.effects is not None and cid) else None
@@ -989,21 +1227,41 @@ class Evaluator:
         if _sfx(tail, "core::cmp::max") or tail.endswith("cmp::Ord::max") or tail == "core::cmp::max":
             return self._minmax(st, "max", args)
         for name in ("saturating_sub", "saturating_add", "wrapping_add", "wrapping_sub", "wrapping_mul",
-                     "is_null", "is_empty", "is_some", "is_none", "is_power_of_two"):
+                     "is_null", "is_empty", "is_some", "is_none", "is_ok", "is_err", "is_power_of_two"):
             if tail.endswith("::" + name) and (tail.startswith("core::") or tail.startswith("std::")):
                 if name == "is_empty":
                     v = self._deref_val(st, args[0]) if args[0][0] == "ref" else args[0]
                     return self.mk_bin(st, "Eq", ("len", v), ("int", 0), "bool")
-                if name in ("is_some", "is_none"):
+                if name in ("is_some", "is_none", "is_ok", "is_err"):
                     v = self._deref_val(st, args[0])
                     d = self.mk_discr(st, v)
-                    return self.mk_bin(st, "Eq", d, ("int", 1 if name == "is_some" else 0), "bool")
+                    # Option: None = 0, Some = 1; Result: Ok = 0, Err = 1
+                    return self.mk_bin(st, "Eq", d, ("int", 1 if name in ("is_some", "is_err") else 0), "bool")
                 if all(is_const(a) for a in args) and name.startswith(("saturating", "wrapping")):
                     pass
                 return ("pure", name, tuple(args))
+        import re as _re
+        m = _re.match(r"core::num::<impl (u\d+|usize)>::(to_le_bytes|to_be_bytes|from_le_bytes|from_be_bytes)$", tail)
+        if m:
+            # byte (de)composition of unsigned integers, spelled out so that `x.to_le_bytes()[1]` and `(x >> 8) as u8` are one term
+            ty = m.group(1)
+            nb = (ty_bits(ty, self.ptr) or 64) // 8
+            if m.group(2).startswith("to_") and len(args) == 1:
+                x = args[0]
+                els = [("cast", x, "u8", "int") if k == 0 else ("cast", self.mk_bin(st, "Shr", x, ("int", 8 * k), ty), "u8", "int")
+                       for k in range(nb)]
+                return ("array", tuple(els if m.group(2) == "to_le_bytes" else reversed(els)))
+            if m.group(2).startswith("from_") and len(args) == 1 and args[0][0] == "array" and len(args[0][1]) == nb:
+                els = list(args[0][1]) if m.group(2) == "from_le_bytes" else list(reversed(args[0][1]))
+                acc = ("cast", els[0], ty, "widen")
+                for k in range(1, nb):
+                    acc = self.mk_bin(st, "BitOr", acc, self.mk_bin(st, "Shl", ("cast", els[k], ty, "widen"), ("int", 8 * k), ty), ty)
+                return acc
         if tail.endswith("::len") and tail.startswith("core::slice"):
+            if args[0] in self.arrlen:
+                return ("int", self.arrlen[args[0]])
             v = self._deref_val(st, args[0]) if args[0][0] == "ref" else args[0]
-            return ("len", v)
+            return self._mk_len(v)
         if "convert::" in tail and (tail.endswith("::from") or tail.endswith("::into")) and len(args) == 1:
             ga = c.get("generic_args", [])
             ints = ("u8", "u16", "u32", "u64", "usize", "i8", "i16", "i32", "i64", "isize", "bool")
@@ -1016,6 +1274,15 @@ class Evaluator:
             if _sfx(callee, s):
                 return ("pure", s, tuple(self._deref_val(st, a) if a[0] == "ref" and not a[2] else a for a in args))
         return None
+
+    @staticmethod
+    def _mk_len(v):
+        """length of a slice value; folded when the underlying array has a known size"""
+        if v and v[0] == "pure" and v[1] == "repeat" and is_const(v[2][1]) and const_val(v[2][1]) >= 0:
+            return ("int", const_val(v[2][1]))
+        if v and v[0] == "constarr":
+            return ("int", len(v[2]))
+        return ("len", v)
 
     def _deref_val(self, st, a):
         if a[0] == "ref":
